@@ -300,7 +300,10 @@ func checkErr(rec *stats.Recorder, c errCase) (msg string, known string) {
 		if c.Kind == "plain-error" {
 			text = scripted.Err.Plain
 		} else if c.Kind == "panic" {
-			text = scripted.Err.Panic
+			text = strings.TrimPrefix(scripted.Err.Panic, "error:")
+			if text == "nil-deref" {
+				text = "nil pointer dereference"
+			}
 		}
 		if text != "" && (rerr.Message == nil || !strings.Contains(*rerr.Message, text)) {
 			return fail("the error response does not carry the error's message %q: %s", text, hx.J(dyn.ErrFromGo(&rerr.ErrorResponse)))
@@ -378,7 +381,7 @@ func TestC08Errors(t *testing.T) {
 		case "plain-error":
 			c.Outcome = dyn.Outcome{Err: &dyn.ErrM{Plain: rapid.SampledFrom([]string{"disk on fire", "x", "bad: é \"q\" \\ \n nl", "disk is 100% full", "key a%2Fb not found", "%d %s %v %!", "%"}).Draw(rt, "plain")}}
 		case "panic":
-			c.Outcome = dyn.Outcome{Err: &dyn.ErrM{Panic: rapid.SampledFrom([]string{"kaboom", "index out of range [1]", "50% done %s"}).Draw(rt, "panic")}}
+			c.Outcome = dyn.Outcome{Err: &dyn.ErrM{Panic: rapid.SampledFrom([]string{"kaboom", "index out of range [1]", "50% done %s", "error:wrapped failure: 100% é", "nil-deref"}).Draw(rt, "panic")}}
 		case "unserialisable-result":
 			// a result that cannot be serialised (an illegal enum constant / a union without member inside an array or map
 			// of an action result, an entity, a created entity or a finder element): the failure happens after part of
